@@ -71,9 +71,11 @@ def check_input(dc, st, raw, r=None):
         st.inc('rejected')
     st.add('states', (dc.spec.get('tag') or tuple(dc.spec.get('names', ())), r[0], u[0], len(raw)))
     st.add('outcomes', (r[0], u[0]))
-    if u[0] == 'ok' and r[0] == 'fail' and r[1].kind == 'short':
+    if u[0] == 'ok' and r[0] == 'fail':
+        # a field "requires" its bytes up to and including its delimiter, its declared count of elements, ...:
+        # whenever the strict reference rejects, unpack must not produce a packet
         f = r[1]
-        st.violate('over-accept short read: %s' % blame(dc, f),
+        st.violate('over-accept %s: %s' % ('short read' if f.kind == 'short' else '(%s)' % f.kind, blame(dc, f)),
                    'unpack(%r) succeeded but field %s.%s needs bytes that are not in the input (%s) | %s' % (
                        raw, f.stack[0][2], '/'.join(f.stack[0][1]), f.why, dc.src.replace('\n', '; ')),
                    dc.case(raw=raw), dc.snippet('p = %s.unpack(%r)\nprint(p)' % (dc.P['name'], raw)))
